@@ -189,6 +189,13 @@ def run(args):
     n_lint = lint(rep, fl)
     n_cells = dual_matrix(rep, work, variants)
     n_fun = functors(rep, work, variants)
+    # C12.d: the single-precision clause, for the values of exp / log: switch arms meet at the float switch-over (R-JET)
+    # and the closed-form arms keep single-precision accuracy just above it (R-ROUND, engine/rounding.py; DESIGN 10.11)
+    from . import rules_jet as RJ
+    from .check_c02 import VALUE_FUNCS
+    nf_f, no_f = RJ.check(rep, "C12", VALUE_FUNCS | {("manif::SE2Base", "log"), ("manif::SO3Base", "log")}, scalars=("float",), obs="return", clause="value")
+    rep.floor("float_switch_functions", nf_f, 5)
+    rep.floor("float_value_observables", no_f, 10)
     rep.floor("patterns_linted", n_lint, 600)
     rep.floor("dual_cells", n_cells, 3500)
     rep.floor("functor_witnesses", n_fun, 48)
@@ -197,8 +204,9 @@ def run(args):
         "C12.b E1-dual: every documented API entry (minus the Random family and Dual->float casts, exempt with reason) instantiates for vt::Dual<4> - a 60-line forward-mode dual with the ceres::Jet interface - for owning, Map and Map<const> operands of 8 group variants",
         "C12.c E1-functor: CeresManifoldFunctor::Plus/Minus, CeresLocalParameterizationFunctor, CeresObjectiveFunctor, CeresConstraintFunctor (and their setters/getters) instantiate through raw-pointer views for double and the dual scalar",
     ]
+    rep.rules.append("C12.d R-JET / R-ROUND for float: for the value observables of SE2 / SO3 exp and log (and SO3 ljac, SGal3 fillE, which carry the translation-like parts of the composite groups) the two arms of every precision switch meet at the single-precision switch-over within 1e-4, and the first-order rounding-error bound of the closed-form arm in float, worst over a ladder of rotation magnitudes from the switch-over (mixed worlds included), stays below 1e-4 relative to max(1, |value|)")
     rep.units = ["witness TUs with S = vt::Dual<4>", "functor TU"] + [F.tag for F in fl]
     rep.trusted = ["clang front end", "vt::Dual models the interface of ceres::Jet / autodiff::dual (neither library is installed)"]
-    rep.assumptions = ["NOT decided: dual parts reproduce the analytic Jacobians; float agrees with double to single precision (numerical)"]
+    rep.assumptions = ["NOT decided: dual parts reproduce the analytic Jacobians; float agrees with double to single precision beyond the first-order rounding model of C12.d (Jacobians in float, composite-group specific code)"]
     rep.checker_cmd = "clang++ -fsyntax-only witness TUs (-include dual.h) ; manif-sa plugin patterns + engine/check_c12.py"
     return rep.finish()
